@@ -208,3 +208,7 @@ def run_C20(ctx, args):
         "snapshots are put into head rounds through the real Chain.AddSnapshot with an unverified certificate mask (finalization "
         "checks belong to C09); one snapshot per round",
     ]
+    if ctx.tier == "thorough":
+        # system level: durable writes of a real multi-node network (spec/Net/Trace_Net.tla)
+        import netrace
+        netrace.run_net(ctx)
